@@ -122,6 +122,23 @@ def pool_stage(ctx):
         raise Infra("PixelPool violates its own requirement: %s" % (e.invariant or e.error))
     ctx.require_clean(e, "pool-E")
     ctx.add_tlc_counts(e)
+    # the same protocol for ANY number of pixels and workers: PixelPool refines PixelPoolProof (checked by TLC for
+    # the bounded constants), whose safety theorems the TLA+ proof system checks without bounds (thorough tier)
+    proof = {}
+    for (mp, mw) in ([(4, 3), (5, 2)] if quick else [(4, 3), (5, 2), (6, 4), (7, 2)]):
+        r = ctx.tlc("pool-ref-%dx%d" % (mp, mw), "render/PixelPoolRef",
+                    "SPECIFICATION RefSpec\nCONSTANTS\n  MaxP = %d\n  MaxW = %d\nPROPERTIES AbsSpec\n"
+                    "INVARIANTS AbsInv AtMostOnce AllOnceAtEnd\nCHECK_DEADLOCK FALSE\n" % (mp, mw),
+                    workers=8, timeout=1200, generated=ctx.tlaps_module())
+        if r.invariant or (r.error and "emporal" in r.error):
+            raise Infra("PixelPool does not refine PixelPoolProof: %s" % (r.invariant or r.error))
+        ctx.require_clean(r, "pool-ref")
+        ctx.add_tlc_counts(r)
+    if not quick:
+        ok, nobl, tail = ctx.tlaps("pool-proof", "render/PixelPoolProof")
+        proof = {"tlaps_proved": ok, "obligations": nobl}
+        if not ok:
+            vlib.log("  (the unbounded proof did not go through here; the bounded model checking above stands)\n" + tail[-400:])
     rpath = os.path.join(ctx.dir, "pix-records.ndjson")
     open(rpath, "w").close()
     n = 0
@@ -140,7 +157,7 @@ def pool_stage(ctx):
         raise Infra("CPU affinity did not change the worker count: %s" % cpus)
     rej, _ = judge_scene(ctx, "pool", rpath, n, {"once"})
     ctx.counts["distinct_nontrivial"] += n
-    ctx.stage("pixel-pool", kind="E+V", model_states=e.distinct, renders=n, worker_counts=cpus, rejected=rej)
+    ctx.stage("pixel-pool", kind="E+V", model_states=e.distinct, renders=n, worker_counts=cpus, rejected=rej, **proof)
 
 
 def scene_stage(ctx):
